@@ -64,6 +64,11 @@ scan(tree_instance* ti, std::string_view l_key, scan_endpoint l_end,
         return status::ERR_BAD_USAGE;
     }
 
+    if (l_end == scan_endpoint::INF) {
+        // the left key is ignored for an unbounded left endpoint
+        l_key = std::string_view{};
+    }
+
 retry_from_root:
     // clear out parameter, this must be after retry_from_root for retry.
     tuple_list.clear();
